@@ -88,6 +88,35 @@ Fixpoint segment (fuel : nat) (v : bytes) : list (N * bytes) * bytes :=
       end
   end.
 
+(* one step of the reference reader on a buffer [v]: what a frame decoder must answer *)
+Inductive step1 :=
+| S1Need                                  (* no complete frame (header) yet *)
+| S1Frame (f : frame) (consumed : N)      (* DATA: the header only *)
+| S1Bad (e : perr_class)
+| S1Skip (ty consumed : N).               (* a complete frame of unknown type *)
+Definition first_step (scheck : bytes -> option settings_err) (v : bytes) : step1 :=
+  match rfc_take_varint v with
+  | None => S1Need
+  | Some (ty, r1) =>
+    if ty =? T_WEBTRANSPORT_STREAM then
+      match rfc_take_varint r1 with
+      | None => S1Need
+      | Some (sid, r2) => S1Frame (FWebTransport sid) (len v - len r2)
+      end
+    else
+      match rfc_take_varint r1 with
+      | None => S1Need
+      | Some (l, r2) =>
+        if ty =? T_DATA then S1Frame (FData l) (len v - len r2)
+        else if len r2 <? l then S1Need
+        else match classify scheck ty (firstn (N.to_nat l) r2) with
+             | CKnown fr => S1Frame fr (len v - len r2 + l)
+             | CBad e => S1Bad e
+             | CSkip => S1Skip ty (len v - len r2 + l)
+             end
+      end
+  end.
+
 (* What an endpoint must act on when the stream carries exactly [v] and ends as [en]:
    frames in order, DATA payload bytes in order, then how it stops.  Every round consumes a complete header
    (at least two bytes), so [S (length v)] rounds always suffice. *)
